@@ -21,11 +21,11 @@ RULE = ("Hypothesis: 1-4 well-formed sequences over a shared pool of 2 channels 
         "overlapping same-key pair across inputs. Distinct by case digest.")
 ASSUMPTIONS = ["the velocity kept by a fused note is not part of the statement",
                "control/program changes are generated as noise but their fate is not part of the statement"]
-TIERS = {"quick": dict(shards=8, examples=1200), "thorough": dict(shards=16, examples=15000)}
+TIERS = {"quick": dict(shards=8, examples=1200), "thorough": dict(size=2, shards=16, examples=15000)}
 
 
 @st.composite
-def _case(draw):
+def _case(draw, size=1):
     k = draw(st.integers(1, 4))
     pitches = draw(st.sampled_from([(60, 61), (60,), (60, 61, 62)]))
     ts_ticks = draw(st.lists(st.integers(0, 150), max_size=4, unique=True))
@@ -40,7 +40,7 @@ def _case(draw):
         if draw(st.integers(0, 7)) == 0:
             notes = []
         else:
-            notes = draw(gens.wellformed_notes(channels=(0, 1), pitches=pitches, max_notes=6, max_len=40, max_gap=25,
+            notes = draw(gens.wellformed_notes(channels=(0, 1), pitches=pitches, max_notes=6 * size, max_len=40, max_gap=25,
                                                start_max=50))
         meta = metas[i]
         if draw(st.integers(0, 3)) == 0:
@@ -55,7 +55,8 @@ def _case(draw):
 
 
 def strategy(params, shard, nshards):
-    return _case()
+    # thorough tier: odd shards draw larger cases (size 2), even shards keep the small, dense ones
+    return _case(size=params.get("size", 1) if shard % 2 else 1)
 
 
 def _merge(specs, receiver):
